@@ -1222,6 +1222,20 @@ class PSBTIn:
                         )
         else:
             # non-witness input
+            if self.witness_script:
+                # a p2wsh input given through its previous transaction: the
+                # WitnessScript still has to be the one the output commits to
+                if not (script_pubkey and script_pubkey.is_p2wsh()):
+                    raise ValueError(
+                        "WitnessScript provided for non-p2wsh ScriptPubKey"
+                    )
+                if self.witness_script.sha256() != script_pubkey.commands[1]:
+                    raise ValueError(
+                        "WitnessScript sha256 and output sha256 do not match"
+                    )
+                for sec in self.named_pubs.keys():
+                    if sec not in self.witness_script.commands:
+                        raise ValueError(f"pubkey is not in WitnessScript: {self}")
             if self.redeem_script:
                 if not script_pubkey.is_p2sh():
                     raise ValueError("RedeemScript defined for non-p2sh ScriptPubKey")
